@@ -451,6 +451,7 @@ package util
 //@   trusted
 //@   props C16
 //@   opt bodyfor C16
+//@   holds mpt.mutex R
 //@   assigns mpt.missingNodeKeys
 //@   ensures err == nil ==> n != nil && Canon(n) && PathsWF(n) && ((n is *FullNode) == KeyIsFull(key)) && len(key) == 32
 //@   ensures err != nil ==> n == nil
@@ -627,9 +628,12 @@ package util
 //@ func (*MerklePatriciaTrie).IterateFrom returns (err)
 //@   props C16
 //@   mode wrap
+// A traversal reads nodes that a concurrent mutator deletes from the store: it is atomic only while
+// the trie mutex is held (for reading) from its first to its last node access.
 //@ func (*MerklePatriciaTrie).iterate returns (err)
 //@   props C16
 //@   mode wrap
+//@   holds mpt.mutex R
 //@ func (*MerklePatriciaTrie).MergeChanges returns (err)
 //@   props C16
 //@   mode wrap
